@@ -639,6 +639,43 @@ func defaultHeaderVariants(c *chain.Chain, s *chain.Step, fs *flat.State) (out [
 			out = append(out, blockVariant{"pre-state:default-exec-header:payload-parent-hash-nonzero", "payload.parent_hash", &g, b})
 		}
 	}
+	// default header + the ENTIRE payload = the default (all-zero, empty) payload. bellatrix: execution is not enabled,
+	// nothing is processed, valid. capella/deneb: process_execution_payload always runs and refuses it (prev_randao),
+	// unless process_withdrawals refuses it first — so once on a pre-state that expects NO withdrawals (every 0x01
+	// credential prefix turned into 0x00) and once on the pre-state as it is.
+	zeroPayload := func() *chain.SignedBlock {
+		b := s.Block.Clone(c.Spec)
+		pl := b.Body().Payload
+		*pl.ParentHash, *pl.FeeRecipient, *pl.StateRoot, *pl.ReceiptsRoot = common.Hash32{}, common.Eth1Address{}, common.Bytes32{}, common.Bytes32{}
+		*pl.LogsBloom, *pl.PrevRandao, *pl.BlockNumber, *pl.GasLimit, *pl.GasUsed = common.LogsBloom{}, common.Bytes32{}, 0, 0, 0
+		*pl.Timestamp, *pl.ExtraData, *pl.BaseFeePerGas, *pl.BlockHash = 0, nil, view.Uint256View{}, common.Hash32{}
+		*pl.Transactions = nil
+		if pl.Withdrawals != nil {
+			*pl.Withdrawals = nil
+		}
+		if pl.BlobGasUsed != nil {
+			*pl.BlobGasUsed, *pl.ExcessBlobGas = 0, 0
+		}
+		if k := b.Body().BlobKZGCommitments; k != nil {
+			*k = nil
+		}
+		c.SignBlock(b, s.PreBlock)
+		return b
+	}
+	if fs.Fork == "bellatrix" {
+		out = append(out, blockVariant{"pre-state:default-exec-header:default-payload(execution-not-enabled,valid)", "valid", &g, zeroPayload()})
+	} else {
+		h := g
+		h.Validators = append([]flat.Validator(nil), g.Validators...)
+		for i := range h.Validators {
+			if h.Validators[i].WithdrawalCredentials[0] == 0x01 {
+				h.Validators[i].WithdrawalCredentials[0] = 0x00
+			}
+		}
+		zb := zeroPayload()
+		out = append(out, blockVariant{"pre-state:default-exec-header+no-withdrawals-expected:default-payload", "payload.prev_randao", &h, zb},
+			blockVariant{"pre-state:default-exec-header:default-payload", "payload.default", &g, zb})
+	}
 	return out
 }
 
@@ -649,6 +686,7 @@ func defaultHeaderVariants(c *chain.Chain, s *chain.Step, fs *flat.State) (out [
 //     (domain by target epoch: the current version);
 //   - proposer slashing: two headers of the last slot before the fork (domain by the header's epoch: the previous version);
 //   - voluntary exit with exit.epoch = fork epoch - 1 (domain by exit.epoch: the previous version; deneb: capella's).
+//
 // valid: ONE block carrying all of them (what fits and finds a validator), correctly signed; muts (c03): each object alone,
 // signed under the other version. Only where the fork record has two versions and fork.epoch >= 1.
 func crossForkOps(c *chain.Chain, s *chain.Step, fs *flat.State, rng *rand.Rand) (valid []blockVariant, muts []chain.Mutant) {
